@@ -5,6 +5,10 @@ Check (C09_escape_roundtrip : forall s : text, forallb xml_char s = true -> ~ In
 Check (C09_escape_cr_refuted : read_back (escape [97; 13; 98]) = Some [97; 10; 98]).
 Check (C09_wellformed_chars : forall s : text, forallb xml_char (escape_text s) = forallb xml_char s).
 Check (C09_non_xml_char_ill_formed : forall s : text, forallb xml_char s = false -> read_back (escape_text s) = None).
+Check (C09_attribute_roundtrip : forall s : text, forallb xml_char s = true -> attr_read_back (escape_attr s) = Some s).
+Check (C09_attribute_escape_refuted : attr_read_back (escape [97; 9; 98]) = Some [97; 32; 98] /\ attr_read_back (escape [13; 10]) = Some [32]).
+Check (eq_refl : attr_read_back [97; 13; 10; 98; 9; 99; 38; 35; 57; 59] = Some [97; 32; 98; 32; 99; 9]).
+Check (eq_refl : attr_read_back [97; 34] = None).
 (* the specification side pinned by evaluation: XML Char, EOL normalisation, references *)
 Check (eq_refl : map xml_char [0; 1; 8; 9; 10; 11; 12; 13; 31; 32; 55295; 55296; 57343; 57344; 65533; 65534; 65535; 65536; 1114111; 1114112]
                = [false; false; false; true; true; false; false; true; false; true; true; false; false; true; true; false; false; true; true; false]).
